@@ -9,4 +9,4 @@ EXPLANATION = ""
 
 
 def build(tier):
-    return c07red.build(tier) + c07idx.build(tier) + c07.build(tier)
+    return c07red.build(tier) + c07idx.build(tier) + c07idx.build_inv(tier) + c07.build(tier)
